@@ -15,24 +15,73 @@ from ttvc import units as _U
 _U.load_all()
 _COUNT = {}
 _LOSSY = {}
+_CALLEES = {}       # unit -> teneva functions it enters through their contract ('module.function')
+_FUNCS = {}         # unit -> teneva functions whose source it executes ('module.function')
+import json as _json, re as _re
+import multiprocessing as _mp
+
+
+def _run_one(u):
+    try:
+        obs = _U.run(u, 'quick')
+    except Exception as ex:                       # an unfinished unit is reported by the check itself
+        return u, 0, [], [], [], repr(ex)[:200]
+    meta = [_json.loads(o.detail) for o in obs if o.kind == 'meta']
+    cnt = len([o for o in obs if o.kind not in ('meta', 'canary', 'cover')])
+    lossy = sorted({x for m in meta for x in m['models_used'] if 'opaque' in x})
+    callees = sorted({x for m in meta for x in m.get('callees_used', [])})
+    funcs = sorted({_re.sub(r'^teneva/(\w+)\.py:', r'\1.', f['function']) for m in meta for f in m['functions'] if 'function' in f})
+    return u, cnt, lossy, callees, funcs, ''
+
+
+_names = [u for u in _U.UNITS if not u.startswith('frames.')]
+with _mp.get_context('fork').Pool(int(os.environ.get('GEN_PROPS_WORKERS', '12'))) as _pool:
+    for u, cnt, lossy, callees, funcs, err in _pool.map(_run_one, _names, chunksize=1):
+        _COUNT[u], _LOSSY[u], _CALLEES[u], _FUNCS[u] = cnt, lossy, callees, funcs
+        if err:
+            print('unit', u, 'did not run:', err)
+_UNITS_OF = {}
+for u, fs in _FUNCS.items():
+    for f in fs:
+        _UNITS_OF.setdefault(f, []).append(u)
+
 for pid, e in TABLE.items():
     missing = [u for u in e['t1'] if u not in _U.UNITS]
     e['t1'] = [u for u in e['t1'] if u in _U.UNITS]
     # units that declare the property in their @unit(..., props=...) tag are part of it even when the table does not list them
     e['t1'] += [u for u, (_, props) in _U.UNITS.items() if pid in props and u not in e['t1']]
+    # Modular verification: a unit ASSUMES the contract of every teneva function it calls (call-site handlers in contracts/*.py,
+    # recorded per unit as `callees_used`).  The proof of the property is only as good as those contracts, so the units that discharge
+    # them against the callee's own source belong to the same check, transitively: a change inside a callee that breaks the contract
+    # this property's proof rests on fails a named obligation of THIS check.  Exception: the frame properties C09 / C10 are decided
+    # by `frames` (aliasing / effects / state); the value contracts of callees say nothing about them, so nothing is pulled in there.
+    direct = list(e['t1'])
+    if pid not in ('C09', 'C10'):
+        todo = list(direct)
+        while todo:
+            u = todo.pop()
+            for f in _CALLEES.get(u, []):
+                for v in _UNITS_OF.get(f, []):
+                    if v not in e['t1']:
+                        e['t1'].append(v)
+                        todo.append(v)
+    e['t1_via_callees'] = [u for u in e['t1'] if u not in direct]
+    funcs_here = {f for u in e['t1'] for f in _FUNCS.get(u, [])}
+    called = {f for u in e['t1'] for f in _CALLEES.get(u, [])}
+    # callee contracts that are assumed by this check and discharged by no unit of this check (none exists, or C09 / C10)
+    e['t1_callees_elsewhere'] = {f: sorted(_UNITS_OF.get(f, []))[:4] for f in sorted(called - funcs_here)}
     e['not_attempted'] += ['planned unit not implemented yet: ' + u for u in missing]
     # vacuity guard: declared minimum = 70% of the obligations generated on the tree the table was written for
-    n = 0
     for u in e['t1']:
-        if u not in _COUNT:
+        if u not in _COUNT:       # frames pseudo-units
             _obs = _U.run(u, 'quick')
             _COUNT[u] = len([o for o in _obs if o.kind not in ('meta', 'canary', 'cover')])
-            import json as _json
-            _LOSSY[u] = sorted({x for o in _obs if o.kind == 'meta' for x in _json.loads(o.detail)['models_used'] if 'opaque' in x})
-        n += _COUNT[u]
+            _LOSSY[u] = []
+    n = sum(_COUNT[u] for u in e['t1'])
     e['t1_min'] = int(0.7 * n)
     e['t1_counts'] = {u: _COUNT[u] for u in e['t1']}
     e['t1_lossy'] = {u: _LOSSY[u] for u in e['t1'] if _LOSSY.get(u)}
+    print(pid, len(direct), 'units by tag +', len(e['t1_via_callees']), 'through callee contracts;', n, 'obligations; callee contracts not discharged in this check:', sorted(e['t1_callees_elsewhere']))
     if not e['t1']:
         e['t1_min'] = 0
         e['expl'] = 'BOUNDED ONLY AT PRESENT (no T1 unit implemented yet for this property; planned: ' + ', '.join(missing) + '). ' + e['expl']
@@ -42,7 +91,7 @@ for pid, e in TABLE.items():
     with open(os.path.join(ROOT, 'props', pid + '.py'), 'w') as fh:
         fh.write(f'"""Property {pid}: which T1 units and which bounded suite make up the check (generated by tools/gen_props.py '
                  f'from tools/props_table.py; see DESIGN.md section 3)."""\nimport os\n')
-        fh.write(f'ID = {pid!r}\nLEVEL = {e["level"]!r}\nT1 = {e["t1"]!r}\nT1_MIN = {e["t1_min"]!r}\nT1_COUNTS = {e.get("t1_counts", {})!r}\nT1_LOSSY = {e.get("t1_lossy", {})!r}\n')
+        fh.write(f'ID = {pid!r}\nLEVEL = {e["level"]!r}\nT1 = {e["t1"]!r}\nT1_MIN = {e["t1_min"]!r}\nT1_COUNTS = {e.get("t1_counts", {})!r}\nT1_LOSSY = {e.get("t1_lossy", {})!r}\nT1_VIA_CALLEES = {e.get("t1_via_callees", [])!r}\nT1_CALLEES_ELSEWHERE = {e.get("t1_callees_elsewhere", {})!r}\n')
         fh.write(f"T3 = os.path.exists(os.path.join(os.path.dirname(__file__), '..', 'rtc', 'suites', '{pid}.py'))\n")
         fh.write(f'LEMMAS = {e["lemmas"]!r}\nNOT_ATTEMPTED = {e["not_attempted"]!r}\n')
         fh.write(f'EXPLANATION = {e["expl"]!r}\nNOTE = {e["note"]!r}\nTECHNIQUE = {e["technique"]!r}\n')
